@@ -29,12 +29,16 @@ TECHNIQUE = ("runtime monitoring: snapshot differencing of the processor object 
              "read-back, literal-conversion oracle, probe-model trace of runs started through every entry point")
 RULE = ("random CCD/CMOS/MKID/APD processors with generated probe pipelines (1-4 groups, 1-3 models, 1-5 arguments, "
         "names that are prefixes of each other, model names shared between groups in half of the cases, dictionary-valued "
-        "arguments whose entries are addressed with one more key component); every valid key x one value shape per case; "
+        "arguments whose entries are addressed with one more key component; environment.wavelength not given / one "
+        "value / multi-wavelength {cut_on, cut_off, resolution} whose components are addressed with one more key "
+        "component); every valid key x one value shape per case; "
         "sweep-like histories (2-5 copies of one processor through Processor.replace / deepcopy+set, valid observation "
         "sweeps seq/dask/YAML over 1-2 keys) judged after all points; ~60 tricky texts; "
         "~60 mutated keys per case (edit, abbreviation, truncation at each dot, extension, wrong group/model/argument, "
         "dots, root, case) through has/get/set, override_dct, pyxel.run(override=), observation (seq/dask/YAML), "
-        "calibration; sweeps of undeclared arguments and of disabled models; an evaluation = one (entry point, key, "
+        "calibration; sweeps of undeclared arguments and of disabled models; sessions of 2-4 validations / runs of ONE "
+        "Observation object while the swept model is switched off / on or another pipeline is handed in, every run "
+        "judged against its own configuration; an evaluation = one (entry point, key, "
         "value) triple, non-trivial always; distinct = distinct triples")
 ASSUMPTIONS = [
     "settable fields per detector type are those of the documented constructors (catalogue below); other public "
@@ -56,6 +60,11 @@ ASSUMPTIONS = [
     "public settings of the original and of the other copies as configured; the dask path may run a point twice",
     "two swept keys with the same (model name, argument name) in two groups collide in the axis labels of the result: "
     "counted (layout of sweep results is another property)",
+    "a field configured as a structured value (multi-wavelength environment) is addressed component by component; "
+    "component values are generated in disjoint ranges so that cut_on < cut_off holds after every assignment; the "
+    "field may also be re-assigned as a whole with a plain value",
+    "an Observation object may be validated / run several times; what it accepted or refused before is irrelevant: "
+    "each run is decided by the configuration handed in for that run",
     "an accepted key whose components all name existing objects exactly (e.g. 'detector', a private alias) is "
     "tolerated when it replaces exactly that object or the run then dies before any model; it is a violation when it "
     "adds an attribute / dict entry or changes nothing and the pipeline still runs",
